@@ -51,43 +51,38 @@ example : emits 2019 .nullish true false = true := by decide
 example : emits 5 .propertyShorthand false true = false ∧ emits 2015 .propertyShorthand false true = true := by decide
 example : (2019 : Nat) ≠ 0 ∧ 2019 < Feature.since .nullish := by decide
 
-/-- the guard sites in the source are exactly the modelled ones (with the literals of `guardOf`), and every
-    producer of newer syntax is one of: print-through of input syntax (`?.` is only printed for nodes that carry the
-    Optional flag — the three `no-gate` sites; the one function that SETS that flag, toNullishExpr, is called inside
-    the body of the minVersion(2020) gate), a rewrite inside the body of its gate, the object-literal shorthand of
-    `minifyProperty` whose condition consults `minVersion(2015)`, or the shorthand of `minifyBinding` (a destructuring
-    pattern, itself ES2015 syntax of the input) -/
+/-- The regenerated gate facts (harness/cmd/extract/c16_flags.go; all names resolved through the type checker, so renames,
+    hoisted conditions, helpers and moved code do not matter):
+    * there is exactly one gate function of the shape `o.Version == 0 || v <= o.Version` — the shape `minVersion` of the model
+      (with the literals of `guardOf`);
+    * the versions that are tested are exactly the modelled features' (2015 template literals and shorthand properties,
+      2016 `**`, 2019 optional catch binding, 2020 `??` / `?.`);
+    * every place that CREATES newer syntax is dominated by the gate of its feature: `**` bytes by 2016; a `Nullish` token
+      and setting a node's `Optional` flag (both only in the nullish rewrite) by 2020; template literals by the 2015 gate
+      handed to `minifyString`; `?.` bytes are written only under a test of the node's own `Optional` flag, i.e. copied from the
+      input; the object-literal shorthand (`js.Property`) is decided by a condition that consults the 2015 gate, the shorthand
+      of a destructuring pattern (`js.BindingObjectItem`, itself ES2015 syntax of the input) is not gated.
+    An ungated producer shows up as `…: UNGATED in f`, a producer under the wrong gate with that gate's version. -/
 theorem gates_ok :
-    Verif.Gen.JsVersionGates.gates =
-      ["jsMinifier.minifyExpr: minVersion(2015)", "jsMinifier.minifyExpr: minVersion(2016)",
-       "jsMinifier.minifyProperty: minVersion(2015)", "jsMinifier.minifyStmt: minVersion(2019)",
-       "jsMinifier.optimizeCondExpr: minVersion(2020)"] ∧
+    Verif.Gen.JsVersionGates.gateFunctions = 1 ∧
+    Verif.Gen.JsVersionGates.gateVersions = [2015, 2016, 2019, 2020] ∧
     Verif.Gen.JsVersionGates.producers =
-      ["jsMinifier.minifyAlias: minifyString allowTemplate=false",
-       "jsMinifier.minifyAlias: minifyString allowTemplate=false",
-       "jsMinifier.minifyBinding: property shorthand (name: skipped when Name.IsIdent) gate no-gate",
-       "jsMinifier.minifyExpr: minifyString allowTemplate=m.o.minVersion(2015)",
-       "jsMinifier.minifyExpr: write(expBytes) inside minVersion(2016)",
-       "jsMinifier.minifyExpr: write(optChainBytes) inside no-gate",
-       "jsMinifier.minifyExpr: write(optChainBytes) inside no-gate",
-       "jsMinifier.minifyExpr: write(optChainBytes) inside no-gate",
-       "jsMinifier.minifyProperty: property shorthand (name: skipped when Name.IsIdent) gate minVersion(2015)",
-       "jsMinifier.minifyPropertyName: minifyString allowTemplate=false",
-       "jsMinifier.minifyStmt: minifyString allowTemplate=false",
-       "jsMinifier.minifyStmt: minifyString allowTemplate=false",
-       "jsMinifier.optimizeCondExpr: toNullishExpr inside minVersion(2020)"] := by decide
+      ["bytes **: gated 2016", "bytes ?.: input-flag Optional",
+       "property shorthand of js.BindingObjectItem: no gate", "property shorthand of js.Property: condition consults gate 2015",
+       "set Optional: gated 2020", "template: gated 2015", "token NullishToken: gated 2020"] := by decide
 
-/-- every CLI flag is bound to the option field its name says -/
+/-- every CLI flag is bound to the option field its name says (`flag=package.Field`; the option struct is identified by its
+    type, the flag name by its constant value) -/
 theorem cli_flags_ok : Verif.Gen.CliFlags.flags =
-    ["css-precision=cssMinifier.Precision", "html-keep-comments=htmlMinifier.KeepComments",
-     "html-keep-conditional-comments=htmlMinifier.KeepConditionalComments",
-     "html-keep-default-attrvals=htmlMinifier.KeepDefaultAttrVals", "html-keep-document-tags=htmlMinifier.KeepDocumentTags",
-     "html-keep-end-tags=htmlMinifier.KeepEndTags", "html-keep-quotes=htmlMinifier.KeepQuotes",
-     "html-keep-special-comments=htmlMinifier.KeepSpecialComments", "html-keep-whitespace=htmlMinifier.KeepWhitespace",
-     "js-keep-var-names=jsMinifier.KeepVarNames", "js-precision=jsMinifier.Precision", "js-version=jsMinifier.Version",
-     "json-keep-numbers=jsonMinifier.KeepNumbers", "json-precision=jsonMinifier.Precision",
-     "svg-keep-comments=svgMinifier.KeepComments", "svg-precision=svgMinifier.Precision",
-     "xml-keep-whitespace=xmlMinifier.KeepWhitespace"] := by decide
+    ["css-precision=css.Precision", "html-keep-comments=html.KeepComments",
+     "html-keep-conditional-comments=html.KeepConditionalComments",
+     "html-keep-default-attrvals=html.KeepDefaultAttrVals", "html-keep-document-tags=html.KeepDocumentTags",
+     "html-keep-end-tags=html.KeepEndTags", "html-keep-quotes=html.KeepQuotes",
+     "html-keep-special-comments=html.KeepSpecialComments", "html-keep-whitespace=html.KeepWhitespace",
+     "js-keep-var-names=js.KeepVarNames", "js-precision=js.Precision", "js-version=js.Version",
+     "json-keep-numbers=json.KeepNumbers", "json-precision=json.Precision",
+     "svg-keep-comments=svg.KeepComments", "svg-precision=svg.Precision",
+     "xml-keep-whitespace=xml.KeepWhitespace"] := by decide
 
 /-- every exported option is either reachable from the CLI or one of the documented library-only options -/
 def libraryOnly : List String := ["css.Inline", "css.KeepCSS2", "html.TemplateDelims", "svg.Inline"]
@@ -101,87 +96,106 @@ def cliBound : List String :=
 theorem options_covered :
     Verif.Gen.CliFlags.optionFields.all (fun f => libraryOnly.contains f || cliBound.contains f) = true := by decide
 
-/-- the minifier values of `run()` in cmd/minify/main.go (regenerated): the six option structs the flags are bound to,
+/-- the option-struct values of cmd/minify (regenerated through the type checker; a value is named after what it is — `html`,
+    `html+TemplateDelims=…` for a copy of `html` with that field assigned — not after its variable): the six option structs the flags are bound to,
     and the three template flavours (ASP/EJS, PHP, Go/mustache/handlebars templates), each of which is defined as a **copy
     of `htmlMinifier`** with nothing but `TemplateDelims` assigned afterwards — so every `--html-*` flag reaches every
     HTML-derived media type; and the media types each value is registered for.  A template flavour built from a fresh
     `html.Minifier{…}` (flags silently ignored for .php/.asp/.ejs/.tmpl/… inputs) changes this list. -/
 theorem cli_registry_ok :
     Verif.Gen.CliFlags.registry =
-      ["def aspMinifier := htmlMinifier", "def aspMinifier.TemplateDelims = [2]string{\"<%\", \"%>\"}",
-       "def cssMinifier := css.Minifier{}", "def htmlMinifier := html.Minifier{}", "def jsMinifier := js.Minifier{}",
-       "def jsonMinifier := json.Minifier{}", "def phpMinifier := htmlMinifier",
-       "def phpMinifier.TemplateDelims = [2]string{\"<?\", \"?>\"}", "def svgMinifier := svg.Minifier{}",
-       "def tmplMinifier := htmlMinifier", "def tmplMinifier.TemplateDelims = [2]string{\"{{\", \"}}\"}",
-       "def xmlMinifier := xml.Minifier{}", "reg \"application/x-httpd-php\" -> &phpMinifier",
-       "reg \"image/svg+xml\" -> &svgMinifier", "reg \"text/asp\" -> &aspMinifier",
-       "reg \"text/css\" -> &cssMinifier", "reg \"text/html\" -> &htmlMinifier",
-       "reg \"text/x-ejs-template\" -> &aspMinifier", "reg \"text/x-go-template\" -> &tmplMinifier",
-       "reg \"text/x-handlebars-template\" -> &tmplMinifier", "reg \"text/x-mustache-template\" -> &tmplMinifier",
-       "reg regexp.MustCompile(\"[/+]json$\") -> &jsonMinifier",
-       "reg regexp.MustCompile(\"[/+]xml$\") -> &xmlMinifier",
-       "reg regexp.MustCompile(\"^(application|text)/(x-)?(java|ecma|j|live)script(1\\\\.[0-5])?$|^module$\") -> &jsMinifier"] := by decide
+      ["def css := css.Minifier{}",
+       "def html := html.Minifier{}",
+       "def html+TemplateDelims=[2]string{\"<%\", \"%>\"} := copy of html",
+       "def html+TemplateDelims=[2]string{\"<?\", \"?>\"} := copy of html",
+       "def html+TemplateDelims=[2]string{\"{{\", \"}}\"} := copy of html",
+       "def js := js.Minifier{}",
+       "def json := json.Minifier{}",
+       "def svg := svg.Minifier{}",
+       "def xml := xml.Minifier{}",
+       "reg \"application/x-httpd-php\" -> html+TemplateDelims=[2]string{\"<?\", \"?>\"}",
+       "reg \"image/svg+xml\" -> svg",
+       "reg \"text/asp\" -> html+TemplateDelims=[2]string{\"<%\", \"%>\"}",
+       "reg \"text/css\" -> css",
+       "reg \"text/html\" -> html",
+       "reg \"text/x-ejs-template\" -> html+TemplateDelims=[2]string{\"<%\", \"%>\"}",
+       "reg \"text/x-go-template\" -> html+TemplateDelims=[2]string{\"{{\", \"}}\"}",
+       "reg \"text/x-handlebars-template\" -> html+TemplateDelims=[2]string{\"{{\", \"}}\"}",
+       "reg \"text/x-mustache-template\" -> html+TemplateDelims=[2]string{\"{{\", \"}}\"}",
+       "reg regexp \"[/+]json$\" -> json",
+       "reg regexp \"[/+]xml$\" -> xml",
+       "reg regexp \"^(application|text)/(x-)?(java|ecma|j|live)script(1\\\\.[0-5])?$|^module$\" -> js"] := by decide
 
 /-! ## where the options are consulted (regenerated) -/
 
 /-- every read or write of an option field in the six minifier packages, with its context (regenerated from the
     source on every run): the `Precision` fields reach nothing but `minify.Number`/`minify.Decimal` (and the JS
     literal printers), `newPrecision` is the clamped copy used for numbers the SVG path shortener computes itself,
-    every `Keep*` field is read at the sites modelled by the theorems below, the only writes go to the private copy
+    every `Keep*` field is read at the sites modelled by the theorems below (contexts are resolved through the type checker:
+    `if-condition`, `arg N of <callee>`, `assigned to field T.f`; names of variables and the text of conditions are not part
+    of the fact), the only writes go to the private copy
     `Minify` makes (`KeepConditionalComments` is folded into `KeepSpecialComments`; `Inline` from the `inline`
     parameter).  A new consumer of an option, or a check that disappears, changes this list. -/
 theorem option_sites_ok :
     Verif.Gen.OptionSites.sites =
-      ["css.Minifier.Minify: Inline WRITE", "css.Minifier.Minify: Inline arg of css.NewParser",
-       "css.Minifier.Minify: Inline if !o.Inline", "css.Minifier.Minify: Precision assigned to o.newPrecision",
-       "css.Minifier.Minify: newPrecision WRITE", "css.Minifier.Minify: newPrecision WRITE",
-       "css.Minifier.Minify: newPrecision if o.newPrecision <= 0 || 15 < o.newPrecision",
-       "css.Minifier.Minify: newPrecision if o.newPrecision <= 0 || 15 < o.newPrecision",
-       "css.cssMinifier.minifyNumber: KeepCSS2 if c.o.KeepCSS2 && bytes.IndexByte(num, 'e') == -1 && bytes.Ind..",
-       "css.cssMinifier.minifyNumber: Precision arg of minify.Decimal",
-       "css.cssMinifier.minifyNumber: Precision arg of minify.Number",
-       "css.cssMinifier.minifyProperty: KeepCSS2 if !c.o.KeepCSS2",
-       "html.Minifier.Minify: KeepComments if o.KeepComments", "html.Minifier.Minify: KeepConditionalComments WRITE",
-       "html.Minifier.Minify: KeepConditionalComments if o.KeepConditionalComments",
-       "html.Minifier.Minify: KeepDefaultAttrVals if !o.KeepDefaultAttrVals && (attr.Hash == Type && (t.Hash == S..",
-       "html.Minifier.Minify: KeepDefaultAttrVals if t.Hash == Input && !o.KeepDefaultAttrVals",
-       "html.Minifier.Minify: KeepDocumentTags assigned to isDocTag",
-       "html.Minifier.Minify: KeepEndTags if !o.KeepEndTags",
-       "html.Minifier.Minify: KeepEndTags if o.KeepEndTags && isDocTag",
-       "html.Minifier.Minify: KeepQuotes arg of html.EscapeAttrVal",
+      ["css.(unexported): KeepCSS2 if-condition",
+       "css.(unexported): KeepCSS2 if-condition",
+       "css.(unexported): Precision arg 1 of minify.Decimal",
+       "css.(unexported): Precision arg 1 of minify.Number",
+       "css.Minifier.Minify: Inline WRITE",
+       "css.Minifier.Minify: Inline arg 1 of css.NewParser",
+       "css.Minifier.Minify: Inline if-condition",
+       "css.Minifier.Minify: Precision assigned to field css.Minifier.newPrecision",
+       "css.Minifier.Minify: newPrecision WRITE",
+       "css.Minifier.Minify: newPrecision WRITE",
+       "css.Minifier.Minify: newPrecision if-condition",
+       "css.Minifier.Minify: newPrecision if-condition",
+       "html.Minifier.Minify: KeepComments if-condition",
+       "html.Minifier.Minify: KeepConditionalComments WRITE",
+       "html.Minifier.Minify: KeepConditionalComments if-condition",
+       "html.Minifier.Minify: KeepDefaultAttrVals if-condition",
+       "html.Minifier.Minify: KeepDefaultAttrVals if-condition",
+       "html.Minifier.Minify: KeepDocumentTags assigned to a local",
+       "html.Minifier.Minify: KeepEndTags if-condition",
+       "html.Minifier.Minify: KeepEndTags if-condition",
+       "html.Minifier.Minify: KeepQuotes arg 3 of html.EscapeAttrVal",
        "html.Minifier.Minify: KeepSpecialComments WRITE",
-       "html.Minifier.Minify: KeepSpecialComments if o.KeepSpecialComments",
-       "html.Minifier.Minify: KeepWhitespace if o.KeepWhitespace",
-       "html.Minifier.Minify: KeepWhitespace if o.KeepWhitespace || t.Traits & objectTag != 0",
-       "html.Minifier.Minify: KeepWhitespace if o.KeepWhitespace || t.Traits & objectTag != 0",
-       "html.Minifier.Minify: TemplateDelims arg of html.NewTemplateLexer",
-       "js.Minifier.Minify: KeepVarNames arg of newRenamer", "js.Minifier.Minify: KeepVarNames if o.KeepVarNames",
-       "js.Minifier.Minify: useAlphabetVarNames arg of newRenamer", "js.Minifier.minVersion: Version returned",
-       "js.Minifier.minVersion: Version returned",
-       "js.jsMinifier.countHoistLength: KeepVarNames if !m.o.KeepVarNames",
-       "js.jsMinifier.minifyArrowFunc: KeepVarNames assigned to m.renamer.rename",
-       "js.jsMinifier.minifyExpr: Precision arg of binaryNumber",
-       "js.jsMinifier.minifyExpr: Precision arg of decimalNumber",
-       "js.jsMinifier.minifyExpr: Precision arg of hexadecimalNumber",
-       "js.jsMinifier.minifyExpr: Precision arg of octalNumber",
-       "js.jsMinifier.minifyFuncDecl: KeepVarNames assigned to m.renamer.rename",
-       "js.jsMinifier.minifyMethodDecl: KeepVarNames assigned to m.renamer.rename",
-       "json.Minifier.Minify: KeepNumbers if !o.KeepNumbers && 0 < len(text) && ('0' <= text[0] && text[0..",
-       "json.Minifier.Minify: Precision arg of minify.Number", "svg.Minifier.Minify: Inline WRITE",
-       "svg.Minifier.Minify: Inline if !o.Inline",
-       "svg.Minifier.Minify: Inline if tag == Svg && (o.Inline && attr == Xmlns || attr == Version ..",
-       "svg.Minifier.Minify: KeepComments if o.KeepComments",
-       "svg.Minifier.Minify: Precision assigned to o.newPrecision", "svg.Minifier.Minify: newPrecision WRITE",
+       "html.Minifier.Minify: KeepSpecialComments if-condition",
+       "html.Minifier.Minify: KeepWhitespace if-condition",
+       "html.Minifier.Minify: KeepWhitespace if-condition",
+       "html.Minifier.Minify: KeepWhitespace if-condition",
+       "html.Minifier.Minify: TemplateDelims arg 1 of html.NewTemplateLexer",
+       "js.(unexported): KeepVarNames assigned to field js.renamer.rename",
+       "js.(unexported): KeepVarNames assigned to field js.renamer.rename",
+       "js.(unexported): KeepVarNames assigned to field js.renamer.rename",
+       "js.(unexported): KeepVarNames if-condition",
+       "js.(unexported): Precision arg 1 of an unexported function of the package",
+       "js.(unexported): Precision arg 1 of an unexported function of the package",
+       "js.(unexported): Precision arg 1 of an unexported function of the package",
+       "js.(unexported): Precision arg 1 of an unexported function of the package",
+       "js.(unexported): Version returned",
+       "js.(unexported): Version returned",
+       "js.Minifier.Minify: KeepVarNames arg 0 of an unexported function of the package",
+       "js.Minifier.Minify: KeepVarNames if-condition",
+       "js.Minifier.Minify: useAlphabetVarNames arg 1 of an unexported function of the package",
+       "json.Minifier.Minify: KeepNumbers if-condition",
+       "json.Minifier.Minify: Precision arg 1 of minify.Number",
+       "svg.(unexported): Precision arg 1 of minify.Number",
+       "svg.(unexported): Precision arg 1 of minify.Number",
+       "svg.(unexported): newPrecision arg 1 of minify.Number",
+       "svg.Minifier.Minify: Inline WRITE",
+       "svg.Minifier.Minify: Inline if-condition",
+       "svg.Minifier.Minify: Inline if-condition",
+       "svg.Minifier.Minify: KeepComments if-condition",
+       "svg.Minifier.Minify: Precision assigned to field svg.Minifier.newPrecision",
        "svg.Minifier.Minify: newPrecision WRITE",
-       "svg.Minifier.Minify: newPrecision if o.newPrecision <= 0 || 15 < o.newPrecision",
-       "svg.Minifier.Minify: newPrecision if o.newPrecision <= 0 || 15 < o.newPrecision",
-       "svg.Minifier.shortenDimension: Precision arg of minify.Number",
-       "svg.PathData.shortenAltPosInstruction: newPrecision arg of minify.Number",
-       "svg.PathData.shortenCurPosInstruction: Precision arg of minify.Number",
-       "xml.Minifier.Minify: KeepWhitespace if !o.KeepWhitespace",
-       "xml.Minifier.Minify: KeepWhitespace if next.TokenType == xml.TextToken && !o.KeepWhitespace && pars..",
-       "xml.Minifier.Minify: KeepWhitespace if o.KeepWhitespace",
-       "xml.Minifier.Minify: KeepWhitespace if o.KeepWhitespace"] := by decide
+       "svg.Minifier.Minify: newPrecision WRITE",
+       "svg.Minifier.Minify: newPrecision if-condition",
+       "svg.Minifier.Minify: newPrecision if-condition",
+       "xml.Minifier.Minify: KeepWhitespace if-condition",
+       "xml.Minifier.Minify: KeepWhitespace if-condition",
+       "xml.Minifier.Minify: KeepWhitespace if-condition",
+       "xml.Minifier.Minify: KeepWhitespace if-condition"] := by decide
 
 /-! ## per-option theorems: JSON, XML (re-exported from the language models) -/
 
